@@ -1,5 +1,5 @@
 (* C07 - subscribers are called exactly once per matching event with the right arguments.  Statements only. *)
-From RU Require Import Base Types Defs BitReader World Run WireSpec LwwProofs DispatchProofs NestedNotify Layout LayoutProofs TraceProofs CreateProofs.
+From RU Require Import Base Types Defs BitReader World Run WireSpec LwwProofs DispatchProofs NestedNotify Layout LayoutProofs TraceProofs CreateProofs History HistoryProofs SubscriptionSurvival.
 Open Scope N_scope.
 
 (* a method call nobody subscribed to has no effect and is NOT decoded: any payload bytes, decodable or not *)
@@ -162,3 +162,11 @@ Example C07_example_history :
   contributions ex7_St empty_world ex7_ps = [hit 300%Z 9%Z; hit 300%Z 9%Z; CProp "Ship_hp" 7 (VInt 16); hit 1%Z 2%Z; hit 1%Z 2%Z] /\
   snd (play_strict ex7_St empty_world ex7_ps) = None.
 Proof. vm_compute. repeat split; reflexivity. Qed.
+
+(* across parses: a subscription survives whatever is parsed afterwards unless a later controller registers the very same key (registration
+   replaces - finding C07-a - and nothing in the model ever removes a subscription) *)
+Theorem C07_subscription_survives_parses : forall vs k hist g o,
+  Forall (fun p => ~ In k (vi_keys (vget vs (fst p)))) hist ->
+  dispatch (run_parses vs g hist) o k = dispatch g o k.
+Proof. exact holder_survives_parses. Qed.
+Print Assumptions C07_subscription_survives_parses.
